@@ -110,6 +110,19 @@ def run(out, tier, seed):
     G1 = [[I("n1"), I("p"), N(1)], [I("n1"), I("q"), I("n1")], [I("n2"), I("p"), N(2)], [I("n2"), I("q"), N(1)], [I("n1"), I("p"), I("n2")], [I("n2"), I("q"), I("n3")]]
     stores = [("graph", "Memory"), ("graph", "SimpleMemory"), ("graph", "Auditable"), ("aggregate", "Memory"), ("graph_shared", "Memory"), ("graph_shared", "Auditable")]
     nrew = 0
+    # IRIs whose local part has characters a prefixed name must escape: written out in full and as x:... with PN_LOCAL_ESC
+    REN = {"n1": "n.1", "n2": "n,2", "n3": "n~3", "p": "p(x)", "q": "q;a=b"}
+
+    def ren(x):
+        if isinstance(x, dict):
+            if x.get("k") == "iri" and x.get("v") in REN:
+                return dict(x, v=REN[x["v"]])
+            return {k: ren(v) for k, v in x.items()}
+        return [ren(v) for v in x] if isinstance(x, list) else x
+    for i, w in enumerate(sel[:: (12 if quick else 3)]):
+        data = {"op": "data", "quads": [ren(t) + ["D"] for t in G1], "graphs": []}
+        for pf in (False, "esc"):
+            jobs.append({"cfg": {"facade": "graph", "store": "Memory"}, "events": [data, {"op": "query", "q": ren({"form": "select", "proj": ["*"], "where": w}), "prefixed": pf, "rewrite": "pn-local-esc"}]})
     for i, w in enumerate(sel):
         data = {"op": "data", "quads": [t + ["D"] for t in (G1 if i % 2 == 0 else qgen.random_graph(rng))], "graphs": []}
         q = {"form": "select", "proj": ["*"], "where": w}
